@@ -27,6 +27,7 @@ class Cache:
     limit: int
     group_by: set[UUID]
     is_filtered: bool
+    is_summarized: bool  # an ungrouped `summarize` leaves `group_by` empty
 
     backend: type[TableImpl]
 
@@ -87,6 +88,7 @@ class Cache:
             limit=0,
             group_by=set(),
             is_filtered=False,
+            is_summarized=False,
             backend=type(node),
         )
 
@@ -159,6 +161,7 @@ class Cache:
             res.name_to_uuid = {name: col._uuid for name, col in cols.items()}
             res.uuid_to_name = {uid: name for name, uid in res.name_to_uuid.items()}
             res.group_by = res.group_by | set(res.partition_by)
+            res.is_summarized = True
             res.partition_by = []
 
         elif isinstance(node, verbs.SliceHead):
@@ -174,6 +177,7 @@ class Cache:
             res.derived_from = self.derived_from | right_cache.derived_from
             res.limit = 0
             res.group_by = set()
+            res.is_summarized = False
 
         elif isinstance(node, verbs.Union):
             assert right_cache is not None
@@ -189,6 +193,7 @@ class Cache:
             res.derived_from = self.derived_from | right_cache.derived_from
             res.limit = 0
             res.group_by = set()
+            res.is_summarized = False
 
         elif isinstance(node, verbs.SubqueryMarker):
             res.cols = {
@@ -204,6 +209,7 @@ class Cache:
             res.limit = 0
             res.group_by = set()
             res.is_filtered = False
+            res.is_summarized = False
 
         assert len(res.name_to_uuid) == len(res.uuid_to_name)
         res.derived_from = res.derived_from | {node}
@@ -260,6 +266,8 @@ class Cache:
         if isinstance(node, verbs.Summarize):
             if self.group_by and self.group_by != set(self.partition_by):
                 return "nested summarize"
+            if self.is_summarized and not self.group_by:
+                return "nested summarize"
             if any(
                 (col.ftype(agg_is_window=False) in (Ftype.WINDOW, Ftype.AGGREGATE))
                 for col in node.iter_col_nodes()
@@ -270,7 +278,7 @@ class Cache:
                 return "window function among grouping columns"
 
         if isinstance(node, verbs.Join):
-            if self.group_by:
+            if self.group_by or self.is_summarized:
                 return "join with a grouped table"
 
             if (node.how == "full" or (node.child not in self.derived_from and node.how == "left")) and any(
@@ -292,7 +300,7 @@ class Cache:
                 return "full join with a filtered table"
 
         if isinstance(node, verbs.Union):
-            if self.group_by:
+            if self.group_by or self.is_summarized:
                 return "union with a grouped table"
 
             if any(self.cols[uid].ftype() == Ftype.WINDOW for uid in self.uuid_to_name.keys()):
